@@ -220,3 +220,60 @@ impl Kid {
 impl Drop for Kid {
     fn drop(&mut self) { let _ = self.child.kill(); let _ = self.child.wait(); }
 }
+
+/// A live `RespServer` (the real `handle_connection`) on a loopback port.
+pub struct Live { pub rt: tokio::runtime::Runtime, pub port: u16, handle: tokio::task::JoinHandle<()> }
+impl Live {
+    pub fn start() -> Option<Live> {
+        let rt = tokio::runtime::Builder::new_multi_thread().worker_threads(2).enable_all().build().ok()?;
+        let port = { let l = std::net::TcpListener::bind("127.0.0.1:0").ok()?; l.local_addr().ok()?.port() };
+        let store = std::sync::Arc::new(tokio::sync::RwLock::new(samyama::graph::GraphStore::new()));
+        let cfg = samyama::protocol::ServerConfig { address: "127.0.0.1".into(), port, max_connections: 100, data_path: None };
+        let server = samyama::protocol::RespServer::new(cfg, store);
+        let handle = rt.spawn(async move { let _ = server.start().await; });
+        for _ in 0..200 {
+            if std::net::TcpStream::connect(("127.0.0.1", port)).is_ok() { return Some(Live { rt, port, handle }); }
+            std::thread::sleep(std::time::Duration::from_millis(20));
+        }
+        None
+    }
+    /// write the chunks (one write per chunk, TCP_NODELAY), read until `want` replies were
+    /// decoded by the real decoder or the peer goes quiet; returns (replies, raw bytes read)
+    pub fn exchange(&self, chunks: &[Vec<u8>], want: usize, quiet_ms: u64) -> (Vec<RespValue>, Vec<u8>) {
+        use std::io::Read;
+        let mut s = match std::net::TcpStream::connect(("127.0.0.1", self.port)) { Ok(s) => s, Err(_) => return (vec![], vec![]) };
+        s.set_nodelay(true).ok();
+        s.set_read_timeout(Some(std::time::Duration::from_millis(quiet_ms))).ok();
+        let mut rs = s.try_clone().unwrap();
+        let reader = std::thread::spawn(move || {
+            let mut raw = vec![];
+            let mut got: Vec<RespValue> = vec![];
+            let mut buf = BytesMut::new();
+            let mut tmp = [0u8; 65536];
+            loop {
+                match rs.read(&mut tmp) {
+                    Ok(0) | Err(_) => break,
+                    Ok(k) => {
+                        raw.extend_from_slice(&tmp[..k]);
+                        buf.extend_from_slice(&tmp[..k]);
+                        while let Ok(Some(v)) = RespValue::decode(&mut buf) { got.push(v); }
+                        if got.len() >= want && buf.is_empty() {
+                            // one more short wait: a forged extra frame would arrive right behind
+                            rs.set_read_timeout(Some(std::time::Duration::from_millis(30))).ok();
+                        }
+                    }
+                }
+            }
+            (got, raw)
+        });
+        for c in chunks {
+            if s.write_all(c).is_err() { break; }
+            s.flush().ok();
+            std::thread::sleep(std::time::Duration::from_micros(500));
+        }
+        reader.join().unwrap()
+    }
+}
+impl Drop for Live {
+    fn drop(&mut self) { self.handle.abort(); }
+}
